@@ -94,10 +94,10 @@ def name_to_num(prog, rep, rule, trait, self_s, arg_s, name, expected, extra=Non
 
 
 def check(env, rep, tier):
-    include(rep, env, tier, "c19", ("C19.8",), "C05.8",
+    include(rep, env, tier, "c19", ("C19.3", "C19.8"), "C05.8",
             "'every named content format corresponds to the number assigned to it': the convenience setter puts exactly that number on the "
             "message (through the typed unsigned encoder) and the getter reads it back with the same type")
-    include(rep, env, tier, "c01", ("C01.1",), "C05.5", "'message type <-> 2-bit field': the header accessors write and read exactly their bit fields of the first byte")
+    include(rep, env, tier, "c01", ("C01.1", "C01.2"), "C05.5", "'message type <-> 2-bit field': the header accessors write and read exactly their bit fields of the first byte")
     configs = ["default"] if tier == "quick" else ["default", "nodefault", "udp"]
     rep.configs = configs
     for cfg in configs:
